@@ -369,9 +369,10 @@ Allocations below the bound can still exhaust memory (`fatal error: out of memor
 def maxSliceCap : Nat := 2 ^ 44
 
 /-- the clamp of commit e3a55d9 ("clamp capacity hints by the size of the text"): every hint is cut down to
-`(len(line)+len(text))/8 + 1`, the bytes from the first rule line on; the model uses the whole text length, an upper
+`(len(line)+len(text))/hintClampDiv + hintClampAdd` (regenerated: 8, 1), the bytes from the first rule line on; the model uses the whole text length, an upper
 bound of that (the difference is only observable on texts of 2^47 bytes and more). -/
-def clampHint (text : Str) (h : Nat) : Nat := min h (text.length / 8 + 1)
+def clampHint (text : Str) (h : Nat) : Nat :=
+  min h (text.length / SSV.Gen.C10.hintClampDiv + SSV.Gen.C10.hintClampAdd)
 
 inductive Load where
   | ok (b : Builder)
@@ -431,10 +432,22 @@ deriving Repr, DecidableEq
 def goSlice (line : Str) (lo hi : Nat) : Option Str :=
   if lo > hi then none else some ((line.take hi).drop lo)
 
+/-- the prefix switch of `DomainSetBuilderFromDlc` on a line with its `end` index:
+`full:` (exact domain) / `domain:` (suffix) / `keyword:` / `regexp:`, rule = `line[len(prefix):end]` -/
+def dlcPick (line : Str) (e : Nat) : DlcLine :=
+  let pick (pre : Str) (mk : Str → DlcLine) : DlcLine :=
+    match goSlice line pre.length e with
+    | none => .panic
+    | some r => mk r
+  if SSV.Gen.C10.dlcFullPrefix.isPrefixOf line then pick SSV.Gen.C10.dlcFullPrefix .domain
+  else if SSV.Gen.C10.dlcDomainPrefix.isPrefixOf line then pick SSV.Gen.C10.dlcDomainPrefix .suffix
+  else if SSV.Gen.C10.dlcKeywordPrefix.isPrefixOf line then pick SSV.Gen.C10.dlcKeywordPrefix .keyword
+  else if SSV.Gen.C10.dlcRegexpPrefix.isPrefixOf line then pick SSV.Gen.C10.dlcRegexpPrefix .regexp
+  else .invalid
+
 /-- one line of the loop of `DomainSetBuilderFromDlc` with the `-tag` flag value `tag`:
 '#' lines are skipped; `end` is the index of the first '@' minus one (the separator before the attribute), or the
-line length; with a tag only lines whose text after the first '@' equals the tag are taken; then the prefix switch
-`full:` (exact domain) / `domain:` (suffix) / `keyword:` / `regexp:`. -/
+line length; with a tag only lines whose text after the first '@' equals the tag are taken; then the prefix switch. -/
 def dlcLine (tag line : Str) : DlcLine :=
   if line.head? = some hash then .skip else
   let c := cutAt 64 line
@@ -449,16 +462,7 @@ def dlcLine (tag line : Str) : DlcLine :=
        | some after => if after ≠ tag then none else some (atIdx - 1))
   match endIdx with
   | none => .skip
-  | some e =>
-    let pick (pre : Str) (mk : Str → DlcLine) : DlcLine :=
-      match goSlice line pre.length e with
-      | none => .panic
-      | some r => mk r
-    if SSV.Gen.C10.dlcFullPrefix.isPrefixOf line then pick SSV.Gen.C10.dlcFullPrefix .domain
-    else if SSV.Gen.C10.dlcDomainPrefix.isPrefixOf line then pick SSV.Gen.C10.dlcDomainPrefix .suffix
-    else if SSV.Gen.C10.dlcKeywordPrefix.isPrefixOf line then pick SSV.Gen.C10.dlcKeywordPrefix .keyword
-    else if SSV.Gen.C10.dlcRegexpPrefix.isPrefixOf line then pick SSV.Gen.C10.dlcRegexpPrefix .regexp
-    else .invalid
+  | some e => dlcPick line e
 
 def addDlcLines (tag : Str) (b : Builder) : List Str → Load
   | [] => .ok b
